@@ -292,7 +292,9 @@ def h_regenerate(ctx, plan, case, rec, rng, nk, hist, route, guarded):
             d = engine.same_trace(new, rec)
             if d:
                 issues.append(Issue("regen.identity", f"empty selection, unchanged arguments, but the trace changed: {d}"))
-            if not common.close(w, 0.0):
+            # (a trace of zero density - an unselected choice left outside its support by an
+            # earlier argument change - has score -inf; score differences are then undefined)
+            if np.isfinite(rec.score) and not common.close(w, 0.0):
                 issues.append(Issue("regen.identity", f"empty selection, unchanged arguments, weight {w}"))
             ctx.count("regen_identity_checks")
         else:
